@@ -286,6 +286,68 @@ def main():
         else:
             ck.nontrivial('tpl%d' % i)
 
+    # ---------------- stream G: template arguments: defaults that depend on earlier parameters; function types whose parameter lists hold
+    #                  template-ids and commas.  The member types interrogate records for the instantiation must be the types g++ computes. -----------
+    nG = ck.scale(40, 600)
+    for i in range(nG):
+        targ = lambda: rng.choice(['int', 'double', 'char', 'Vec<int>', 'Vec<Vec<char> >', 'unsigned int', 'const char *'])
+        dflt_u = rng.choice(['T *', 'const T *', 'Vec<T>', 'T', 'T[2]', 'T **'])
+        dflt_v = rng.choice(['const U *', 'U *', 'Vec<U>', 'T', 'U'])
+        ftype = lambda: rng.choice(['%s(%s, %s)', '%s (*)(%s, %s)', '%s(%s, %s)']) % (rng.choice(['void', 'int', 'Vec<int>']), targ(), targ())
+        given = rng.choice([1, 1, 2, 3])
+        ch_args = ', '.join([targ()] + [rng.choice(['long', 'Vec<double>', 'short *'])] * (given > 1) + [rng.choice(['bool', 'Vec<int> *'])] * (given > 2))
+        pa, pb = (ftype() if rng.random() < 0.7 else targ()), (ftype() if rng.random() < 0.4 else targ())
+        text = ('template<class T> struct Vec {};\n'
+                'template<class T, class U = %s, class V = %s> struct Ch {\n__published:\n  T *gt;\n  U *gu;\n  V *gv;\n  U *mu();\n  V *mv();\n};\n'
+                'template<class F> struct Holder {\n__published:\n  F *fp;\n};\n'
+                'template<class A, class B> struct Pair {\n__published:\n  A *first;\n  B *second;\n};\n'
+                'typedef Ch<%s> ChA;\ntypedef Holder<%s> HoA;\ntypedef Pair<%s, %s> PaA;\n') % (dflt_u, dflt_v, ch_args, ftype(), pa, pb)
+        open(os.path.join(wd, 'tg.h'), 'w').write(text)
+        ck.count()
+        ck.dist('template-arguments')
+        rp = {'kind': 'spec', 'files': {'d.h': text}, 'cmd': 'interrogate -c -fnames -od d.in d.h; the element types of the instantiations against g++ decltype'}
+        if vlib.sh(['g++', '-std=gnu++14', '-fsyntax-only', '-w', '-D__published=public', '-x', 'c++', os.path.join(wd, 'tg.h')]).returncode != 0:
+            ck.dist('template-arguments:rejected-by-g++')
+            continue
+        p = vlib.sh([b['interrogate'], '-oc', 'tg.cxx', '-od', 'tg.in', '-module', 'm', '-library', 'l', '-c', '-fnames', 'tg.h'], cwd=wd)
+        diag = [l for l in p.stdout.splitlines() if 'rror' in l or 'Ignoring extra' in l]        # ('Attempt to define invalid type' is a standing notice about function types)
+        if p.returncode != 0 or diag:
+            ck.spec_failure('reject:template-arguments', 'interrogate complains about a header g++ accepts: ' + (diag[0] if diag else p.stdout[-200:])[:300], rp)
+            continue
+        db = dbfile.load(os.path.join(wd, 'tg.in'), b['src'])
+        asserts = {}
+        for e in db['elements'].values():
+            owner = e['scoped_name'].rsplit('::', 1)[0]
+            alias = {'Ch': 'ChA', 'Holder': 'HoA', 'Pair': 'PaA'}.get(owner.split('<')[0].strip())
+            if alias:
+                asserts[e['name']] = 'static_assert(std::is_same<decltype(%s::%s), %s>::value, "%s");' % (alias, e['name'], db['types'][e['type']]['true_name'], e['scoped_name'])
+        if sorted(asserts) != ['first', 'fp', 'gt', 'gu', 'gv', 'second']:
+            ck.spec_failure('print:template-member-missing', 'the data members recorded for the instantiations are %s' % sorted(asserts), dict(rp, asserts=sorted(asserts.values())))
+            continue
+
+        def gxx_ok(names_):
+            open(os.path.join(wd, 'tg.cpp'), 'w').write('#include <type_traits>\n#define __published public\n#include "tg.h"\n' + '\n'.join(asserts[n_] for n_ in names_) + '\n')
+            q = vlib.sh(['g++', '-std=gnu++14', '-fsyntax-only', '-w', '-I', wd, os.path.join(wd, 'tg.cpp')])
+            return q.returncode == 0, ([l for l in q.stdout.splitlines() if 'error' in l] + [''])[0][-220:]
+        # a defaulted parameter whose default is a template-id naming an earlier parameter (Vec<T>, Vec<U>) is a recorded finding: judged apart
+        dep = [m_ for m_, used, d_ in (('gu', given < 2, dflt_u), ('gv', given < 3, dflt_v)) if used and 'Vec<' in d_]
+        if 'gu' in dep and given < 3 and 'U' in dflt_v:
+            dep.append('gv')                 # V's default mentions the unsubstituted U
+        okG = True
+        ok_, el = gxx_ok([n_ for n_ in asserts if n_ not in dep])
+        if not ok_:
+            okG = False
+            ck.spec_failure('print:template-argument-substitution', 'a member of a template instantiation is recorded with a type that is not the type g++ computes: ' + el,
+                            dict(rp, asserts=sorted(asserts.values())))
+        for m_ in sorted(set(dep)):
+            ok_, el = gxx_ok([m_])
+            if not ok_:
+                okG = False
+                ck.spec_failure('print:dependent-template-id-default', 'a default template argument that is a template-id naming an earlier parameter is not substituted: ' + el,
+                                dict(rp, asserts=[asserts[m_]]))
+        if okG:
+            ck.nontrivial('tg%d' % i)
+
     # ---------------- stream C: the shipped stub headers that g++ accepts must parse ---------------------
     pinc = os.path.join(b['src'], 'parser-inc')
     n_inc = 0
@@ -305,7 +367,7 @@ def main():
                             {'kind': 'spec', 'cmd': 'parse_file -Sparser-inc parser-inc/' + f, 'stderr': p.stderr[-400:]})
         else:
             ck.nontrivial('inc' + f)
-    ck.cov['streams'] = {'declarator_trees': len(types), 'known_finding_cases': len(known), 'parser_inc_headers_accepted_by_gxx': n_inc, 'lookup_scenarios': nD, 'multi_declarator_declarations': nE}
+    ck.cov['streams'] = {'declarator_trees': len(types), 'known_finding_cases': len(known), 'parser_inc_headers_accepted_by_gxx': n_inc, 'lookup_scenarios': nD, 'multi_declarator_declarations': nE, 'template_argument_headers': nG}
     ck.cov['rule'] = ('random well-formed types (pointers, lvalue/rvalue references, const, arrays, functions, method pointers; depth <= 6), written by an independent west-const '
                       'reference printer, re-printed by parse_file: text must equal the model printer, and g++ must find decltype(original) and decltype(reprinted) the same type; '
                       'every parser-inc stub header that g++ -fsyntax-only accepts must parse. Non-trivial = distinct type tree that passed both comparisons')
